@@ -1,7 +1,11 @@
 import HcipyVerif.Lemmas.ZernikeIndex
+import HcipyVerif.Lemmas.ZernikeIndexReal
 import HcipyVerif.Lemmas.ZernikeTables
 import HcipyVerif.Lemmas.ZernikeTrig
 import HcipyVerif.Lemmas.ZernikeIntegral
+import HcipyVerif.Lemmas.ZernikeRadialGen
+import HcipyVerif.Lemmas.ZernikeRadialReal
+import HcipyVerif.Lemmas.ZernikeArr
 import Mathlib.Data.Rat.BigOperators
 
 /-!
@@ -12,16 +16,25 @@ fixes D9 and D10; the unrepaired behaviour is kept as `radialEvalOld`, `memoMode
 
 * Index maps (unbounded in the index): `noll_valid`, `noll_left_inverse`, `noll_right_inverse`,
   `noll_injective`, `zernikeToNoll_closed_form`, `zernikeToNoll_none_iff`, ordering
-  `noll_order_block/_n/_absm/_sign`; the same for ANSI.
-* Values (table bounded by the property, `n ≤ 20`; every rational point): `radial_table`,
-  `radial_matches_definition`, `radial_at_zero`, `mode_at_centre`, `radial_orthonormal`,
-  `normalisation_unit`, `mode_cartesian_eq_polar`, `inside_cartesian_eq_polar`; for every order:
-  `radial_poly_eval`, `radial_at_zero_pos`, `radial_old_agrees_off_centre`, `radial_old_nan_at_centre`.
+  `noll_order_block/_n/_absm/_sign`; the same for ANSI.  The float square roots of the code: `noll_order_float_robust/_safe`,
+  `ansi_order_float_robust/_safe`, `tonoll_window_start_float_robust` (the model's integer decision is the floor of every
+  real within an explicit margin of the code's expression).
+* Values, **every radial order**, every rational point: `radial_matches_definition`, `reduced_matches_definition`,
+  `radial_at_zero`, `mode_at_centre`, `radial_poly_eval`, `radial_at_zero_pos`; every real point: `azimuthal_all_real`,
+  `cisPow_all_real`, `zernikeR_eq_model_all_real`, `mode_cartesian_all_real`, `inside_cartesian_all_real`; table bounded by the
+  property (`n ≤ 20`): `radial_table`, `radial_orthonormal`, `radial_matches_definition_table`; `normalisation_unit`,
+  `mode_cartesian_eq_polar`, `inside_cartesian_eq_polar`.
 * Orthonormality as integrals (Mathlib interval integrals): `pint01_is_integral`,
   `pint01_is_weighted_integral`, `radial_orthonormal_integral`, `azimuthal_cos_cos/_sin_sin/_cos_sin`,
-  `azimuthal_orthonormal`, `zernikeR_eq_model`, `zernike_orthonormal_disc`, `zernike_orthonormal_noll`.
-* Cache (every request history): `cache_irrelevant`, `cache_irrelevant_after_any_history`,
-  `cache_irrelevant_order`, `cache_old_counterexample`.
+  `azimuthal_orthonormal`, `zernikeR_eq_model`, `zernike_orthonormal_disc`, `zernike_orthonormal_noll`; stated on the
+  executed definitions: `azimuthal_orthonormal_model`, `radial_orthonormal_integral_model`, `zernike_orthonormal_disc_model`.
+* Cache (every request history): per point `cache_irrelevant`, `cache_irrelevant_after_any_history`,
+  `cache_irrelevant_order`; at array level with references and in-place writes (`Model/ZernikeArr.lean`)
+  `acache_irrelevant`, `acache_entries_stay_fresh`, `acache_irrelevant_after_any_history`, `acache_irrelevant_order`, layouts
+  `separated_layout`, `separated_length`, `unstructured_layout`.
+* `make_zernike_basis`: `basis_mode_index`, `basis_length`, `basis_modes_distinct`, `basis_columns`, `basis_cache_irrelevant`,
+  `basis_column_index`; Field generators on several grids: `generators_any_grid`, `generators_shared_same_grid`.
+* `Old.*`: refutations of code that is no longer in /repo (D9, D10, D130, late binding) — documentation, not evidence.
 -/
 
 set_option linter.unusedSimpArgs false
@@ -193,6 +206,74 @@ theorem ansi_order_m (i i' : Nat) (hn : (ansiToZernike i).1 = (ansiToZernike i')
   rw [hm, hm']; ring
 
 
+/-! ## The float square roots of the index maps
+
+The code computes `n = int(sqrt(2*i - 1) + 0.5) - 1` (Noll) and `n = int((sqrt(8*i + 1) - 1) / 2)` (ANSI) in double
+precision; the model decides with exact integer arithmetic (`roundSqrt`, `Nat.sqrt`).  The theorems below say that the
+model's integer is the floor of the *real* value of the code's expression **and of every real number within an explicit
+margin of it** — so a floating-point evaluation whose error stays below the margin takes the same decision.  The
+`_float_safe` forms instantiate the margin for a relative error of `2⁻⁵²` (two correctly rounded operations); what remains
+assumed is only that `math.sqrt`, `+`, `-`, `/` are correctly rounded (IEEE 754), no longer "the compared range". -/
+
+/-- Noll: every real `y` within `1/(8·round(√k)+4)` of `√k + ½` (`k = 2i-1`) floors to the model's `roundSqrt k` -/
+theorem noll_order_float_robust (i : Nat) (hi : 1 ≤ i) (y : ℝ)
+    (hy : |y - (√((2 * i - 1 : ℕ) : ℝ) + 1 / 2)| < 1 / (8 * (roundSqrt (2 * i - 1) : ℝ) + 4)) :
+    ⌊y⌋₊ - 1 = (nollToZernike i).1 := by
+  show ⌊y⌋₊ - 1 = nollN i
+  unfold nollN
+  rw [roundSqrt_floor_robust (2 * i - 1) (by omega) y hy]
+
+/-- Noll, double precision: for every index `i` with `2i-1 < 2⁴⁸` (`i ≤ 1.4·10¹⁴`) and every `y` with relative error at most
+`2⁻⁵²` from `√(2i-1) + ½`, `int(y) - 1` is the radial order of the model -/
+theorem noll_order_float_safe (i : Nat) (hi : 1 ≤ i) (hb : 2 * i - 1 < 2 ^ 48) (y : ℝ)
+    (hy : |y - (√((2 * i - 1 : ℕ) : ℝ) + 1 / 2)| ≤ (√((2 * i - 1 : ℕ) : ℝ) + 1 / 2) / 2 ^ 52) :
+    ⌊y⌋₊ - 1 = (nollToZernike i).1 := nollN_float_safe i hi hb y hy
+
+/-- ANSI: every real `y` within `1/(2n+3)` of `(√(8i+1) - 1)/2` floors to the model's `n` — provided `y` is exact when
+`8i+1` is a perfect square (the first index of every row; `sqrt` of a perfect square, `- 1` and `/ 2` are exact in binary
+floating point), where the real value is itself an integer and there is no margin below -/
+theorem ansi_order_float_robust (i : Nat) (y : ℝ)
+    (hexact : ∀ t : ℕ, t * t = 8 * i + 1 → y = ((t : ℝ) - 1) / 2)
+    (hy : |y - (√((8 * i + 1 : ℕ) : ℝ) - 1) / 2| < 1 / (2 * ((ansiToZernike i).1 : ℝ) + 3)) :
+    ⌊y⌋₊ = (ansiToZernike i).1 := ansi_floor_robust i y hexact hy
+
+/-- ANSI, double precision: `8i+1 < 2⁵⁰` (`i ≤ 1.4·10¹⁴`), error at most `√(8i+1)·2⁻⁵²` -/
+theorem ansi_order_float_safe (i : Nat) (hb : 8 * i + 1 < 2 ^ 50) (y : ℝ)
+    (hexact : ∀ t : ℕ, t * t = 8 * i + 1 → y = ((t : ℝ) - 1) / 2)
+    (hy : |y - (√((8 * i + 1 : ℕ) : ℝ) - 1) / 2| ≤ √((8 * i + 1 : ℕ) : ℝ) / 2 ^ 52) :
+    ⌊y⌋₊ = (ansiToZernike i).1 := ansiN_float_safe i hb y hexact hy
+
+/-- `zernike_to_noll` starts its search at `int(((n + 0.5)**2 + 1) / 2) + 1`: the real value is `n(n+1)/2 + 5/8`, so for every
+`y` within `3/8` of it the search of the code (same window length) is the model's `zernikeToNoll`, whose start is the first Noll
+index `n(n+1)/2 + 1` of row `n` -/
+theorem tonoll_window_start_float_robust (n : Nat) (m : Int) (y : ℝ)
+    (hy : |y - (((n : ℝ) + 1 / 2) ^ 2 + 1) / 2| < 3 / 8) :
+    searchNoll n m (⌊y⌋₊ + 1) ((n + 1) * (n + 2) / 2 + 1) = zernikeToNoll n m := by
+  have key : ⌊y⌋₊ = n * (n + 1) / 2 := by
+    have ht := two_tri n
+    have hT : n * (n + 1) / 2 = tri n := rfl
+    rw [hT]
+    have htr : 2 * (tri n : ℝ) = (n : ℝ) * (n + 1) := by exact_mod_cast ht
+    obtain ⟨h1, h2⟩ := abs_lt.mp hy
+    have hy0 : 0 ≤ y := by nlinarith [sq_nonneg ((n : ℝ) + 1 / 2)]
+    rw [Nat.floor_eq_iff hy0]
+    constructor <;> nlinarith
+  rw [key]
+  rfl
+
+/-- the hypotheses are satisfiable: the exact values themselves (`i = 3`: `√5 + ½`; `√25 = 5`, `y = 2`) -/
+example : |(√((2 * 3 - 1 : ℕ) : ℝ) + 1 / 2) - (√((2 * 3 - 1 : ℕ) : ℝ) + 1 / 2)| ≤ (√((2 * 3 - 1 : ℕ) : ℝ) + 1 / 2) / 2 ^ 52 := by
+  rw [sub_self, abs_zero]; positivity
+example : ∃ y : ℝ, (∀ t : ℕ, t * t = 8 * 3 + 1 → y = ((t : ℝ) - 1) / 2) ∧
+    |y - (√((8 * 3 + 1 : ℕ) : ℝ) - 1) / 2| ≤ √((8 * 3 + 1 : ℕ) : ℝ) / 2 ^ 52 := by
+  have h5 : √((8 * 3 + 1 : ℕ) : ℝ) = 5 := by
+    rw [show ((8 * 3 + 1 : ℕ) : ℝ) = 5 ^ 2 by norm_num]; exact Real.sqrt_sq (by norm_num)
+  refine ⟨2, ?_, ?_⟩
+  · intro t ht
+    have : t = 5 := by nlinarith
+    subst this; norm_num
+  · rw [h5]; norm_num
+
 /-! ## Radial polynomial: the q-recursion equals the factorial definition -/
 
 /-- For every order (unbounded) and every point, the symbolic recursion `radialPoly` evaluates to what
@@ -212,21 +293,29 @@ theorem radial_poly_eq_def (n m : Nat) (hn : n ≤ 20) (hm : m ≤ n) (hpar : (n
   have := h (n, m) ((mem_pairs 20 n m).mpr ⟨hn, hm, hpar⟩)
   simpa using this
 
-/-- `zernike_radial(n, m, r)` equals `Σ_k (-1)^k (n-k)! / (k! ((n+m)/2-k)! ((n-m)/2-k)!) r^(n-2k)` for every
-valid `(n, m)` with `n ≤ 20` and **every** rational `r`, the centre `r = 0` included. -/
-theorem radial_matches_definition (n m : Nat) (hn : n ≤ 20) (hm : m ≤ n) (hpar : (n - m) % 2 = 0) (r : Rat) :
+/-- **Every radial order** (no table, no bound): `zernike_radial(n, m, r)` equals
+`Σ_k (-1)^k (n-k)! / (k! ((n+m)/2-k)! ((n-m)/2-k)!) r^(n-2k)` for every valid `(n, m)` and **every** rational `r`, the
+centre `r = 0` included.  Proved by induction along the q-recursion (`Lemmas/ZernikeRadialGen.lean`): the factorial
+coefficients satisfy the three-term recurrence with the code's `h1, h2, h3`, a rational-function identity. -/
+theorem radial_matches_definition (n m : Nat) (hm : m ≤ n) (hpar : (n - m) % 2 = 0) (r : Rat) :
     radialEval n m r = ∑ k ∈ range ((n - m) / 2 + 1),
       ((-1) ^ k * ((n - k).factorial : Rat) /
         ((k.factorial : Rat) * (((n + m) / 2 - k).factorial : Rat) * (((n - m) / 2 - k).factorial : Rat))) *
-          r ^ (n - 2 * k) := by
-  rw [← peval_radialPoly, radial_poly_eq_def n m hn hm hpar, peval_radialDef]
-  apply Finset.sum_congr rfl
-  intro k _
-  congr 1
-  unfold defCoeff
-  simp only [fact_eq_factorial]
-  push_cast
-  ring
+          r ^ (n - 2 * k) := radialEval_eq_sum n m hm hpar r
+
+/-- the reduced polynomial `S_n^{n-2k}(t) = R_n^{n-2k}(r)/r^{n-2k}`, `t = r²`, which the repaired code evaluates and caches
+under `('rad_reduced', n, n-2k)`: factorial form, every order, every rational `t` -/
+theorem reduced_matches_definition (n k : Nat) (hk : 2 * k ≤ n) (t : Rat) :
+    reducedEval n t k = ∑ j ∈ range (k + 1),
+      ((-1 : Rat) ^ j * ((n - j).factorial : Rat) /
+        ((j.factorial : Rat) * ((n - k - j).factorial : Rat) * ((k - j).factorial : Rat))) * t ^ (k - j) :=
+  reducedEval_eq_sum n k hk t
+
+/-- independent cross-check of the induction on the range the property names (`n ≤ 20`): the coefficient lists agree
+(`radial_table`), hence the values -/
+theorem radial_matches_definition_table (n m : Nat) (hn : n ≤ 20) (hm : m ≤ n) (hpar : (n - m) % 2 = 0) (r : Rat) :
+    radialEval n m r = peval (radialDef n m) r := by
+  rw [← peval_radialPoly, radial_poly_eq_def n m hn hm hpar]
 
 /-- at the centre every mode with `m ≠ 0` vanishes — for every radial order -/
 theorem radial_at_zero_pos (n m : Nat) (hm : 0 < m) : radialEval n m 0 = 0 := by
@@ -236,35 +325,36 @@ theorem radial_at_zero_pos (n m : Nat) (hm : 0 < m) : radialEval n m 0 = 0 := by
 theorem radial_at_zero_table :
     ((List.range 11).all fun j => radialEval (2 * j) 0 0 == (-1 : Rat) ^ j) = true := by decide +kernel
 
-/-- value at the exact centre: `0` for `m > 0`, `(-1)^(n/2)` for `m = 0` (what the repaired code returns;
-the unrepaired code returns NaN for `n - m ≥ 4`, see `radial_old_nan_at_centre`) -/
-theorem radial_at_zero (n m : Nat) (hn : n ≤ 20) (hm : m ≤ n) (hpar : (n - m) % 2 = 0) :
+/-- **Value at the exact centre, every radial order** (no table, no bound): `0` for `m > 0`, `(-1)^(n/2)` for `m = 0` — what
+the repaired code returns; the unrepaired code returns NaN for `n - m ≥ 4`, see `Old.radial_nan_at_centre`.  From the
+factorial form of the reduced polynomial at `t = 0` (`reducedEval_zero`); `radial_at_zero_table` is an independent
+evaluation for `n ≤ 20`. -/
+theorem radial_at_zero (n m : Nat) (hm : m ≤ n) (hpar : (n - m) % 2 = 0) :
     radialEval n m 0 = if m = 0 then (-1 : Rat) ^ (n / 2) else 0 := by
   by_cases h0 : m = 0
   · subst h0
     rw [if_pos rfl]
-    have h := radial_at_zero_table
-    rw [List.all_eq_true] at h
-    have := h (n / 2) (List.mem_range.mpr (by omega))
-    have e : 2 * (n / 2) = n := by omega
-    rw [e] at this
-    simpa using this
+    obtain ⟨k, rfl⟩ : ∃ k, n = 2 * k := ⟨n / 2, by omega⟩
+    unfold radialEval
+    have e : (2 * k - 0) / 2 = k := by omega
+    have e' : 2 * k / 2 = k := by omega
+    rw [e, e', pow_zero, one_mul, mul_zero, reducedEval_zero]
   · rw [if_neg h0]; exact radial_at_zero_pos n m (by omega)
 
-/-- the complete mode at the centre of the aperture, whatever the direction `(c, s)` reported there -/
-theorem mode_at_centre (n : Nat) (m : Int) (D c s : Rat) (hn : n ≤ 20) (hv : valid n m = true) :
+/-- the complete mode at the centre of the aperture, whatever the direction `(c, s)` reported there — every order -/
+theorem mode_at_centre (n : Nat) (m : Int) (D c s : Rat) (hv : valid n m = true) :
     modeQ n m D 0 c s = if m = 0 then (-1 : Rat) ^ (n / 2) else 0 := by
   obtain ⟨hv1, hv2⟩ := valid_iff.mp hv
   unfold modeQ
   have e : (2 : Rat) * 0 / D = 0 := by simp
-  rw [e, radial_at_zero n m.natAbs hn hv1 hv2]
+  rw [e, radial_at_zero n m.natAbs hv1 hv2]
   by_cases h0 : m = 0
   · subst h0; simp [azimQ]
   · have : m.natAbs ≠ 0 := by omega
     simp [h0, this]
 
 /-- The unrepaired recurrence (division by `r²`) computes the same value away from the centre … -/
-theorem radial_old_agrees_off_centre (n k : Nat) (r : Rat) (hr : r ≠ 0) (hk : 2 * k ≤ n) :
+theorem Old.radial_agrees_off_centre (n k : Nat) (r : Rat) (hr : r ≠ 0) (hk : 2 * k ≤ n) :
     radialEvalOld n r k = some (radialEval n (n - 2 * k) r) := by
   rw [radialEvalOld_eq n r hr k hk]
   unfold radialEval
@@ -272,10 +362,10 @@ theorem radial_old_agrees_off_centre (n k : Nat) (r : Rat) (hr : r ≠ 0) (hk : 
   rw [this]
 
 /-- … and is NaN at the centre for every mode with `n - |m| ≥ 4` (defect D9). -/
-theorem radial_old_nan_at_centre (n k : Nat) : radialEvalOld n 0 (k + 2) = none :=
+theorem Old.radial_nan_at_centre (n k : Nat) : radialEvalOld n 0 (k + 2) = none :=
   radialEvalOld_centre n k
 
-theorem radial_old_counterexample : radialEvalOld 4 0 2 = none ∧ radialEval 4 0 0 = 1 := by decide +kernel
+theorem Old.radial_counterexample : radialEvalOld 4 0 2 = none ∧ radialEval 4 0 0 = 1 := by decide +kernel
 
 /-! ## Orthonormality and normalisation -/
 
@@ -306,10 +396,39 @@ theorem normalisation_unit (n : Nat) (m : Int) :
 
 /-! ## Polar and Cartesian grids see the same mode -/
 
-/-- The Cartesian evaluation used for regular pupil grids (no square root, no arctangent) is the polar
-formula at `(x, y) = (r c, r s)`. -/
+/-- Bridge for a device of the *harness*, not for a code path: `zernike()` always converts the grid to polar coordinates
+(`hypot`, `arctan2`).  To evaluate the model exactly at Cartesian points with rational coordinates the driver uses
+`modeQXY` (no square root, no arctangent); this theorem says that it is the polar formula `modeQ` — the model of the
+code — at `(x, y) = (r c, r s)`. -/
 theorem mode_cartesian_eq_polar (n : Nat) (m : Int) (D r c s : Rat) (hcs : c ^ 2 + s ^ 2 = 1) :
     modeQXY n m D (r * c) (r * s) = modeQ n m D r c s := modeQXY_polar n m D r c s hcs
+
+/-- **Cartesian grid points, real polar coordinates.** `zernike()` converts a Cartesian grid with `hypot` / `arctan2`; the
+radius of a grid point with rational coordinates is in general irrational, so `mode_cartesian_eq_polar` (rational `r, c, s`)
+does not reach it.  This does: for every rational point `(x, y)` and **every real** `r, θ` with `(x, y) = (r cos θ, r sin θ)`, the
+value the driver computes for that point (`modeQXY`, exact rational arithmetic) is the polar formula of the code — recursion
+polynomial at `2r/D` times the azimuthal factor at `θ` (`azimQ` at `ℝ`, i.e. `cos mθ` / `sin|m|θ` / `1` by `azimuthal_all_real`). -/
+theorem mode_cartesian_all_real (n : Nat) (m : Int) (D x y : Rat) (r θ : ℝ)
+    (hx : (x : ℝ) = r * Real.cos θ) (hy : (y : ℝ) = r * Real.sin θ) :
+    ((modeQXY n m D x y : Rat) : ℝ) =
+      pevalR (radialPoly n m.natAbs) (2 * r / (D : ℝ)) * azimQ m (Real.cos θ) (Real.sin θ) :=
+  modeQXY_real n m D x y r θ hx hy
+
+/-- … and the exact rim decision of the driver is `2r < D` for that real radius -/
+theorem inside_cartesian_all_real (D x y : Rat) (r θ : ℝ) (hx : (x : ℝ) = r * Real.cos θ) (hy : (y : ℝ) = r * Real.sin θ)
+    (hr : 0 ≤ r) (hD : 0 < D) : insideXY D x y = true ↔ 2 * r < (D : ℝ) := by
+  unfold insideXY
+  rw [decide_eq_true_iff]
+  have hDr : (0 : ℝ) < D := by exact_mod_cast hD
+  have e : ((4 * (x * x + y * y) : Rat) : ℝ) = (2 * r) * (2 * r) := by
+    push_cast; rw [hx, hy]
+    have := Real.cos_sq_add_sin_sq θ
+    nlinarith
+  have e2 : ((D * D : Rat) : ℝ) = (D : ℝ) * D := by push_cast; ring
+  rw [← Rat.cast_lt (K := ℝ), e, e2]
+  constructor
+  · intro h; by_contra hc; push Not at hc; nlinarith
+  · intro h; nlinarith
 
 theorem inside_cartesian_eq_polar (D r c s : Rat) (hcs : c ^ 2 + s ^ 2 = 1) (hr : 0 ≤ r) (hD : 0 < D) :
     insideXY D (r * c) (r * s) = inside D r := by
@@ -333,19 +452,35 @@ theorem azimuthal_angle_addition (c s : Rat) (j k : Nat) : cisPow c s (j + k) =
     ((cisPow c s j).1 * (cisPow c s k).1 - (cisPow c s j).2 * (cisPow c s k).2,
      (cisPow c s j).1 * (cisPow c s k).2 + (cisPow c s j).2 * (cisPow c s k).1) := cisPow_add c s j k
 
+/-- **The azimuthal clause for every real direction.** `azimQ` is scalar-polymorphic; the driver executes it at
+`Rat`. The *same definition* instantiated at `ℝ` is, for every real `θ` and every integer `m`, the code's
+`zernike_azimuthal(m, θ)` without its `√2`: `cos(mθ)` (`m > 0`), `sin(|m|θ) = sin(-mθ)` (`m < 0`), `1` (`m = 0`). -/
+theorem azimuthal_all_real (m : Int) (θ : ℝ) :
+    azimQ m (Real.cos θ) (Real.sin θ) = if m = 0 then 1 else if 0 < m then Real.cos (m * θ) else Real.sin (-m * θ) :=
+  azimQ_cos_sin m θ
+
+/-- De Moivre for the executable `cisPow`, every real `θ`, every power -/
+theorem cisPow_all_real (θ : ℝ) (k : Nat) :
+    cisPow (Real.cos θ) (Real.sin θ) k = (Real.cos (k * θ), Real.sin (k * θ)) := cisPow_cos_sin θ k
+
+/-- what the driver computes at `Rat` is the restriction of the real instance to rational `(c, s)`
+(the definition uses only `+`, `-`, `*`, `0`, `1`, which the cast preserves) -/
+theorem azimuthal_rat_restricts_real (m : Int) (c s : Rat) : ((azimQ m c s : Rat) : ℝ) = azimQ m (c : ℝ) (s : ℝ) :=
+  azimQ_cast m c s
+
 /-- over `ℝ`: for a direction `θ` with rational cosine and sine the model's azimuthal factor is
 `cos(mθ)` (`m > 0`), `sin(|m|θ)` (`m < 0`), `1` (`m = 0`) -/
 theorem azimuthal_is_cos_sin (m : Int) (c s : Rat) (θ : ℝ) (hc : (c : ℝ) = Real.cos θ) (hs : (s : ℝ) = Real.sin θ) :
-    (azimQ m c s : ℝ) = if m = 0 then 1 else if 0 < m then Real.cos (m * θ) else Real.sin (-m * θ) :=
+    ((azimQ m c s : Rat) : ℝ) = if m = 0 then 1 else if 0 < m then Real.cos (m * θ) else Real.sin (-m * θ) :=
   azimQ_trig m c s θ hc hs
 
-/-- **The value clause of C13.** For every valid `(n, m)` with `n ≤ 20`, every rational radius `r`
+/-- **The value clause of C13.** For every valid `(n, m)` (every order), every rational radius `r`
 (the centre included), every diameter and every direction `θ` with rational cosine and sine, the value the
 repaired code computes is `√(n+1)·√2^{[m≠0]}` (`normSq`, kept symbolic) times
 `R_n^{|m|}(2r/D) · {cos mθ, sin |m|θ, 1}` with `R` given by the factorial formula. -/
-theorem mode_matches_definition (n : Nat) (m : Int) (hn : n ≤ 20) (hv : valid n m = true) (D r c s : Rat) (θ : ℝ)
+theorem mode_matches_definition (n : Nat) (m : Int) (hv : valid n m = true) (D r c s : Rat) (θ : ℝ)
     (hc : (c : ℝ) = Real.cos θ) (hs : (s : ℝ) = Real.sin θ) :
-    (modeQ n m D r c s : ℝ) =
+    ((modeQ n m D r c s : Rat) : ℝ) =
       (∑ k ∈ range ((n - m.natAbs) / 2 + 1),
         ((-1) ^ k * ((n - k).factorial : ℝ) /
           ((k.factorial : ℝ) * (((n + m.natAbs) / 2 - k).factorial : ℝ) * (((n - m.natAbs) / 2 - k).factorial : ℝ))) *
@@ -353,7 +488,7 @@ theorem mode_matches_definition (n : Nat) (m : Int) (hn : n ≤ 20) (hv : valid 
       (if m = 0 then 1 else if 0 < m then Real.cos (m * θ) else Real.sin (-m * θ)) := by
   obtain ⟨hv1, hv2⟩ := valid_iff.mp hv
   unfold modeQ
-  rw [Rat.cast_mul, azimQ_trig m c s θ hc hs, radial_matches_definition n m.natAbs hn hv1 hv2]
+  rw [Rat.cast_mul, azimQ_trig m c s θ hc hs, radial_matches_definition n m.natAbs hv1 hv2]
   congr 1
   rw [Rat.cast_sum]
   apply Finset.sum_congr rfl
@@ -382,9 +517,82 @@ theorem cache_irrelevant_order (D r cs sn : Rat) (reqs reqs' : List Req) (h : re
 /-- The unrepaired separated-polar branch masks the cached radial array in place (defect D10): after
 `zernike(3, 1, cutoff=True)` the request `zernike(3, 1, cutoff=False)` returns 0 outside the aperture
 instead of `20·√8`. -/
-theorem cache_old_counterexample :
+theorem Old.cache_counterexample :
     runMemoSeparatedOld 1 1 1 0 [⟨3, 1, true⟩, ⟨3, 1, false⟩] [] = [0, 0] ∧
     runMemo 1 1 1 0 [⟨3, 1, true⟩, ⟨3, 1, false⟩] [] = [0, 20] := by decide +kernel
+
+/-! ## The optional cache at array level: references, in-place operations (`Model/ZernikeArr.lean`)
+
+The per-point model above cannot express an in-place operation on an array that *is* a cache entry.  In the
+array-level model a cache slot holds a reference into a heap of arrays, `z_r *= mask` is a heap write, and the
+unrepaired separated-polar branch (`old = true`) is a program of the same language whose counterexample is
+`Old.acache_counterexample`.  The theorems below are about `old = false` (the code as it is in /repo); the driver op
+`C13 amemo` runs `runA` and the harness compares results, the keys added per request, which slots hold floats,
+every stored array, and that no stored array ever changes, with the real `zernike(…, cache=…)` state by state. -/
+
+/-- **Cache clause, array level.** On a separated polar grid (any axes) or an unstructured grid (one direction per
+radius), whatever list of requests is evaluated against one initially empty cache, every returned array is the
+plain uncached array in the code's layout. -/
+theorem acache_irrelevant (D : Rat) (g : AGrid) (hg : g.WF) (reqs : List Req) :
+    resultsA false D g reqs = reqs.map (plainA D g) :=
+  (runA_spec D g hg reqs {} (AValid.empty _ _)).1
+
+/-- **No cache entry is ever spoiled.** After every request of every history, every cache slot — a float or a
+reference shared with whoever else holds it — still reads as exactly the array a fresh evaluation would store under
+that key (`plainArr`: `R_n^m(ρ)`, `S_n^m(ρ²)`, `cos mθ`/`sin|m|θ` on the axis the key lives on), and every stored
+reference is live. This is the invariant that the in-place masking of D10 breaks. -/
+theorem acache_entries_stay_fresh (D : Rat) (g : AGrid) (hg : g.WF) (reqs : List Req) :
+    ∀ r ∈ runA false D g reqs {}, ∀ k v, r.2.getC k = some v →
+      WfVal r.2.heap v ∧ r.2.heap.read (klen (g.rho D) g.dirs k) v = plainArr (g.rho D) g.dirs k :=
+  fun r hr => (runA_spec D g hg reqs {} (AValid.empty _ _)).2 r hr
+
+/-- the answers do not depend on what was requested before, array level -/
+theorem acache_irrelevant_after_any_history (D : Rat) (g : AGrid) (hg : g.WF) (before reqs : List Req) :
+    resultsA false D g (before ++ reqs) = resultsA false D g before ++ resultsA false D g reqs := by
+  rw [acache_irrelevant D g hg, acache_irrelevant D g hg, acache_irrelevant D g hg, List.map_append]
+
+/-- re-ordering the requests re-orders the returned arrays and changes nothing else -/
+theorem acache_irrelevant_order (D : Rat) (g : AGrid) (hg : g.WF) (reqs reqs' : List Req) (h : reqs.Perm reqs') :
+    (resultsA false D g reqs).Perm (resultsA false D g reqs') := by
+  rw [acache_irrelevant D g hg, acache_irrelevant D g hg]; exact h.map _
+
+/-- **Separated-polar layout** (`np.outer(z_theta, z_r).flatten()`, `R` fastest): for any request history against one
+cache, the `j`-th returned Field has at flat index `iθ·nr + ir` the value of the mode at `(R[ir], Θ[iθ])`. -/
+theorem separated_layout (D : Rat) (R : Arr) (dirs : List (Rat × Rat)) (reqs : List Req) (j iθ ir : Nat)
+    (hj : j < reqs.length) (hθ : iθ < dirs.length) (hr : ir < R.length) :
+    (resultsA false D (.sep R dirs) reqs)[j]?.bind (·[iθ * R.length + ir]?) =
+      some (modeQCut reqs[j].n reqs[j].m D R[ir] dirs[iθ].1 dirs[iθ].2 reqs[j].cutoff) := by
+  rw [acache_irrelevant D (.sep R dirs) trivial]
+  simp only [List.getElem?_map, List.getElem?_eq_getElem hj, Option.map_some, Option.bind_some, plainA]
+  exact flatMap_map_getElem? (fun d r => modeQCut reqs[j].n reqs[j].m D r d.1 d.2 reqs[j].cutoff) dirs R iθ ir hθ hr
+
+/-- … and it has `nθ·nr` entries (also for `m = 0`, where the azimuthal factor is the scalar `1`: D10b) -/
+theorem separated_length (D : Rat) (R : Arr) (dirs : List (Rat × Rat)) (reqs : List Req) :
+    ∀ z ∈ resultsA false D (.sep R dirs) reqs, z.length = dirs.length * R.length := by
+  rw [acache_irrelevant D (.sep R dirs) trivial]
+  intro z hz
+  obtain ⟨q, _, rfl⟩ := List.mem_map.mp hz
+  simp only [plainA, List.length_flatMap, List.length_map, List.map_const', List.sum_replicate, smul_eq_mul]
+
+/-- unstructured layout: point `i` of the Field is the mode at point `i` -/
+theorem unstructured_layout (D : Rat) (rs : Arr) (dirs : List (Rat × Rat)) (hl : rs.length = dirs.length) (reqs : List Req)
+    (j i : Nat) (hj : j < reqs.length) (hi : i < rs.length) :
+    (resultsA false D (.pts rs dirs) reqs)[j]?.bind (·[i]?) =
+      some (modeQCut reqs[j].n reqs[j].m D rs[i] (dirs[i]'(hl ▸ hi)).1 (dirs[i]'(hl ▸ hi)).2 reqs[j].cutoff) := by
+  rw [acache_irrelevant D (.pts rs dirs) hl]
+  simp [List.getElem?_map, List.getElem?_eq_getElem hj, plainA, List.getElem?_zipWith, hi, hl ▸ hi]
+
+/-- The unrepaired separated-polar branch `z_r *= mask` (defect D10) in the same language: the write goes through the
+reference that the cache also holds, so after `zernike(3, 1, cutoff=True)` the request `zernike(3, 1, cutoff=False)`
+returns 0 outside the aperture instead of `20` (`·√8`) — while the repaired program returns the plain value. -/
+theorem Old.acache_counterexample :
+    resultsA true 1 (.sep [1] [(1, 0)]) [⟨3, 1, true⟩, ⟨3, 1, false⟩] = [[0], [0]] ∧
+    resultsA false 1 (.sep [1] [(1, 0)]) [⟨3, 1, true⟩, ⟨3, 1, false⟩] = [[0], [20]] := by decide +kernel
+
+/-- and the cached radial array itself is spoiled (the invariant of `acache_entries_stay_fresh` fails for `old`) -/
+theorem Old.acache_entry_spoiled :
+    ((runA true 1 (.sep [1] [(1, 0)]) [⟨3, 1, true⟩] {}).map fun r => (r.2.getC (.rad 3 1)).map (r.2.heap.read 1)) = [some [0]] ∧
+    plainArr [2] [(1, 0)] (.rad 3 1) = [20] := by decide +kernel
 
 section Integrals
 open intervalIntegral Real
@@ -405,10 +613,10 @@ theorem pint01_is_weighted_integral (p : Poly) :
 /-- real evaluation agrees with rational evaluation at rational points -/
 theorem pevalR_at_rational (p : Poly) (r : Rat) : pevalR p (r : ℝ) = ((peval p r : Rat) : ℝ) := pevalR_cast p r
 
-/-- for `n ≤ 20` the polynomial computed by the recursion is, as a real function, the factorial definition -/
-theorem radial_real_matches_definition (n m : Nat) (hn : n ≤ 20) (hm : m ≤ n) (hpar : (n - m) % 2 = 0) (x : ℝ) :
-    pevalR (radialPoly n m) x = radialR n m x := by
-  rw [radial_poly_eq_def n m hn hm hpar, pevalR_radialDef]
+/-- for every order the polynomial computed by the recursion is, as a real function of a **real** argument, the factorial
+definition (agreement on `ℚ` by induction, continuity, density of `ℚ`) -/
+theorem radial_real_matches_definition (n m : Nat) (hm : m ≤ n) (hpar : (n - m) % 2 = 0) (x : ℝ) :
+    pevalR (radialPoly n m) x = radialR n m x := pevalR_radialPoly_eq_radialR n m hm hpar x
 
 /-- **Radial orthonormality as an integral**: `∫₀¹ R_n^m(r) R_{n'}^m(r) r dr = δ_{nn'} / (2(n+1))` for all
 `n, n' ≤ 20` of the parity of `m`, with `R` the factorial definition over `ℝ`. -/
@@ -420,7 +628,7 @@ theorem radial_orthonormal_integral (n n' m : Nat) (hn : n ≤ 20) (hn' : n' ≤
   have e : (fun r : ℝ => radialR n m r * radialR n' m r * r)
       = fun r => pevalR (pmul (radialPoly n m) (radialPoly n' m)) r * r := by
     funext r
-    rw [pevalR_pmul, radial_real_matches_definition n m hn hm hpar, radial_real_matches_definition n' m hn' hm' hpar']
+    rw [pevalR_pmul, radial_real_matches_definition n m hm hpar, radial_real_matches_definition n' m hm' hpar']
   rw [e, h]
   split <;> simp
 
@@ -449,7 +657,7 @@ theorem azimuthal_orthonormal (m m' : ℤ) :
 
 /-- the real azimuthal factor is the one of the executable model (times `√2` for `m ≠ 0`) -/
 theorem azimR_eq_model (m : ℤ) (c s : Rat) (θ : ℝ) (hc : (c : ℝ) = cos θ) (hs : (s : ℝ) = sin θ) :
-    azimR m θ = (if m = 0 then 1 else √2) * (azimQ m c s : ℝ) := by
+    azimR m θ = (if m = 0 then 1 else √2) * ((azimQ m c s : Rat) : ℝ) := by
   rw [azimuthal_is_cos_sin m c s θ hc hs]
   unfold azimR
   split
@@ -459,14 +667,39 @@ theorem azimR_eq_model (m : ℤ) (c s : Rat) (θ : ℝ) (hc : (c : ℝ) = cos θ
     · push_cast; rfl
 
 /-- the real mode `zernikeR` is what the executable model computes: `√(n+1)·√2^{[m≠0]}·modeQ` -/
-theorem zernikeR_eq_model (n : Nat) (m : ℤ) (hn : n ≤ 20) (hv : valid n m = true) (D r c s : Rat) (θ : ℝ)
+theorem zernikeR_eq_model (n : Nat) (m : ℤ) (hv : valid n m = true) (D r c s : Rat) (θ : ℝ)
     (hc : (c : ℝ) = cos θ) (hs : (s : ℝ) = sin θ) :
-    zernikeR n m ((2 * r / D : Rat) : ℝ) θ = √((n : ℝ) + 1) * (if m = 0 then 1 else √2) * (modeQ n m D r c s : ℝ) := by
+    zernikeR n m ((2 * r / D : Rat) : ℝ) θ = √((n : ℝ) + 1) * (if m = 0 then 1 else √2) * ((modeQ n m D r c s : Rat) : ℝ) := by
   obtain ⟨hv1, hv2⟩ := valid_iff.mp hv
   unfold zernikeR modeQ
-  rw [azimR_eq_model m c s θ hc hs, ← radial_real_matches_definition n m.natAbs hn hv1 hv2, pevalR_cast,
+  rw [azimR_eq_model m c s θ hc hs, ← radial_real_matches_definition n m.natAbs hv1 hv2, pevalR_cast,
     peval_radialPoly]
   push_cast
+  ring
+
+/-- `zernike_azimuthal(m, θ)` (`azimR`, with its `√2`) is `√2^{[m≠0]}` times the executable `azimQ` at
+`(cos θ, sin θ)` — for **every real** `θ` (no rationality hypothesis) -/
+theorem azimR_eq_model_all_real (m : ℤ) (θ : ℝ) :
+    azimR m θ = (if m = 0 then 1 else √2) * azimQ m (cos θ) (sin θ) := by
+  rw [azimuthal_all_real m θ]
+  unfold azimR
+  split
+  · simp
+  · split
+    · rfl
+    · push_cast; rfl
+
+/-- **The value clause for every real point.** For valid `(n, m)` of every order, every real normalised radius `x = 2r/D`
+and every real azimuth `θ`, the definition `zernikeR` (`√(n+1)` · factorial-formula radial polynomial · `√2 cos mθ` /
+`√2 sin|m|θ` / `1`) is `√(n+1)·√2^{[m≠0]}` times [the radial polynomial the recursion produces (`radialPoly`, whose
+evaluation at rational points is `radialEval`, what the driver runs: `radial_poly_eval`, `pevalR_at_rational`), evaluated
+at `x`] times [the executable `azimQ` instantiated at `ℝ`]. -/
+theorem zernikeR_eq_model_all_real (n : Nat) (m : ℤ) (hv : valid n m = true) (x θ : ℝ) :
+    zernikeR n m x θ = √((n : ℝ) + 1) * (if m = 0 then 1 else √2) *
+      (pevalR (radialPoly n m.natAbs) x * azimQ m (cos θ) (sin θ)) := by
+  obtain ⟨hv1, hv2⟩ := valid_iff.mp hv
+  unfold zernikeR
+  rw [azimR_eq_model_all_real m θ, ← radial_real_matches_definition n m.natAbs hv1 hv2]
   ring
 
 /-- **Orthonormality over the unit disc** (polar coordinates, area element `r dθ dr`): for all valid
@@ -520,6 +753,41 @@ theorem zernike_orthonormal_noll (j k : Nat) (hj : 1 ≤ j) (hk : 1 ≤ k) (hj' 
     intro h
     exact e (noll_injective j k hj hk (Prod.ext h.1 h.2))
 
+/-! ### the same three statements about what the driver executes
+
+`radialPoly` (coefficient list of the q-recursion: driver op `C13 poly`, compared with the real recursion run on a symbolic
+argument) and `azimQ` (driver op `C13 mode`) are the executed definitions; `pevalR` reads a coefficient list at a real
+argument. No specification function (`radialR`, `azimR`, `zernikeR`) occurs in these statements. -/
+
+/-- azimuthal factors of the executable model, `√2^{[m≠0]} · azimQ m (cos θ) (sin θ)`: orthogonal on `[0, 2π]`, squared norm `2π` -/
+theorem azimuthal_orthonormal_model (m m' : ℤ) :
+    ∫ θ in (0:ℝ)..(2 * π), ((if m = 0 then 1 else √2) * azimQ m (cos θ) (sin θ)) *
+        ((if m' = 0 then 1 else √2) * azimQ m' (cos θ) (sin θ)) = if m = m' then 2 * π else 0 := by
+  simp_rw [← azimR_eq_model_all_real]
+  exact azimuthal_orthonormal m m'
+
+/-- `∫₀¹ R_n^m(r) R_{n'}^m(r) r dr = δ_{nn'} / (2(n+1))` for the polynomials the recursion produces, `n, n' ≤ 20` -/
+theorem radial_orthonormal_integral_model (n n' m : Nat) (hn : n ≤ 20) (hn' : n' ≤ 20) (hm : m ≤ n) (hm' : m ≤ n')
+    (hpar : (n - m) % 2 = 0) (hpar' : (n' - m) % 2 = 0) :
+    ∫ r in (0:ℝ)..1, pevalR (radialPoly n m) r * pevalR (radialPoly n' m) r * r =
+      if n = n' then 1 / (2 * ((n : ℝ) + 1)) else 0 := by
+  have h := pint01_is_weighted_integral (pmul (radialPoly n m) (radialPoly n' m))
+  rw [radial_orthonormal n n' m hn hn' hm hm' hpar hpar'] at h
+  simp_rw [pevalR_pmul] at h
+  rw [h]
+  split <;> simp
+
+/-- **Orthonormality over the unit disc of the modes as the model computes them**: normalisation × recursion polynomial ×
+`azimQ`, for all valid `(n, m)`, `(n', m')` with `n, n' ≤ 20` -/
+theorem zernike_orthonormal_disc_model (n n' : Nat) (m m' : ℤ) (hn : n ≤ 20) (hn' : n' ≤ 20)
+    (hv : valid n m = true) (hv' : valid n' m' = true) :
+    ∫ r in (0:ℝ)..1, ∫ θ in (0:ℝ)..(2 * π),
+        (√((n : ℝ) + 1) * (if m = 0 then 1 else √2) * (pevalR (radialPoly n m.natAbs) r * azimQ m (cos θ) (sin θ))) *
+        (√((n' : ℝ) + 1) * (if m' = 0 then 1 else √2) * (pevalR (radialPoly n' m'.natAbs) r * azimQ m' (cos θ) (sin θ))) * r
+      = if n = n' ∧ m = m' then π else 0 := by
+  simp_rw [← zernikeR_eq_model_all_real n m hv, ← zernikeR_eq_model_all_real n' m' hv']
+  exact zernike_orthonormal_disc n n' m m' hn hn' hv hv'
+
 end Integrals
 
 /-! ## `make_zernike_basis`: element `j` is mode `starting_mode + j` -/
@@ -548,18 +816,82 @@ theorem basis_modes_distinct (ansi : Bool) (start num : Nat) (hs : ansi = false 
     have := noll_injective _ _ (by omega) (by omega) h
     omega
 
+/-- **Columns of `make_zernike_basis(num, D, grid, starting_mode, ansi, radial_cutoff, use_cache)`**: on a separated polar or
+unstructured grid, with the shared cache or without, column `j` is the plain mode of index `starting_mode + j` in the
+code's layout (`basisA` runs the list comprehension of the code on the array-level cache model). -/
+theorem basis_columns (ansi : Bool) (start num : Nat) (D : Rat) (g : AGrid) (hg : g.WF) (cutoff useCache : Bool) :
+    basisA ansi start num D g cutoff useCache =
+      (basisModes ansi start num).map fun nm => plainA D g ⟨nm.1, nm.2, cutoff⟩ := by
+  unfold basisA basisReqs
+  cases useCache
+  · simp only [Bool.false_eq_true, if_false, List.map_map]
+    apply List.map_congr_left
+    intro nm _
+    have := acache_irrelevant D g hg [⟨nm.1, nm.2, cutoff⟩]
+    simpa [resultsA, runA] using this
+  · simp only [if_true]
+    rw [acache_irrelevant D g hg, List.map_map]
+    rfl
+
+/-- `use_cache` does not change the basis -/
+theorem basis_cache_irrelevant (ansi : Bool) (start num : Nat) (D : Rat) (g : AGrid) (hg : g.WF) (cutoff : Bool) :
+    basisA ansi start num D g cutoff true = basisA ansi start num D g cutoff false := by
+  rw [basis_columns ansi start num D g hg, basis_columns ansi start num D g hg]
+
+/-- column `j` by index -/
+theorem basis_column_index (ansi : Bool) (start num : Nat) (D : Rat) (g : AGrid) (hg : g.WF) (cutoff useCache : Bool)
+    (j : Nat) (hj : j < num) :
+    (basisA ansi start num D g cutoff useCache)[j]? =
+      some (plainA D g ⟨(if ansi then ansiToZernike (start + j) else nollToZernike (start + j)).1,
+        (if ansi then ansiToZernike (start + j) else nollToZernike (start + j)).2, cutoff⟩) := by
+  rw [basis_columns ansi start num D g hg, List.getElem?_map, basis_mode_index ansi start num j hj]
+  rfl
+
+/-- **Field generators can be evaluated on any grids in any order** (`grid=None` forms; the code builds them without a
+cache): whatever sequence of calls `gens[j](grid_k)` on whatever well-formed grids, every call returns the plain mode on the
+grid it was handed. -/
+theorem generators_any_grid (D : Rat) : ∀ (calls : List (AGrid × Req)) (st : AState), (∀ c ∈ calls, c.1.WF) →
+    runGensA false D calls st = calls.map fun c => plainA D c.1 c.2
+  | [], _, _ => rfl
+  | (g, q) :: rest, st, h => by
+    simp only [runGensA, List.map_cons, Bool.false_eq_true, if_false]
+    congr 1
+    · have := acache_irrelevant D g (h _ List.mem_cons_self) [q]
+      simpa [resultsA, runA] using this
+    · exact generators_any_grid D rest _ (fun c hc => h c (List.mem_cons_of_mem _ hc))
+
+/-- generators sharing one cache are still right as long as they are all called on the same grid … -/
+theorem generators_shared_same_grid (D : Rat) (g : AGrid) (hg : g.WF) (reqs : List Req) :
+    runGensA true D (reqs.map fun q => (g, q)) {} = reqs.map (plainA D g) := by
+  rw [← acache_irrelevant D g hg]
+  unfold resultsA
+  generalize ({} : AState) = st
+  induction reqs generalizing st with
+  | nil => rfl
+  | cons q qs ih => simp only [List.map_cons, runGensA, runA, if_true]; rw [ih]
+
+/-- … but not on a second grid (defect D130, `make_zernike_basis(num, D, grid=None)` with the default `use_cache=True` handed
+one dictionary to all generators): the second grid silently gets the values of the first. -/
+theorem Old.generators_shared_cache_counterexample :
+    runGensA true 1 [(.pts [1/4] [(1, 0)], ⟨1, 1, false⟩), (.pts [1/2] [(1, 0)], ⟨1, 1, false⟩)] {} = [[1/2], [1/2]] ∧
+    runGensA false 1 [(.pts [1/4] [(1, 0)], ⟨1, 1, false⟩), (.pts [1/2] [(1, 0)], ⟨1, 1, false⟩)] {} = [[1/2], [1]] := by
+  decide +kernel
+
 /-- closures that bind the loop variable late all evaluate the last index (seeded defect class):
 already for two modes the first generator is wrong -/
-theorem basis_late_binding_counterexample :
+theorem Old.basis_late_binding_counterexample :
     basisModesLateBinding false 1 2 = [(1, 1), (1, 1)] ∧ basisModes false 1 2 = [(0, 0), (1, 1)] := by
   decide +kernel
 
 /-! ## Hypotheses are satisfiable -/
 
 example : valid 4 (-2) = true := by decide
+example : (AGrid.pts [0, 1/2] [(1, 0), (3/5, 4/5)]).WF ∧ (AGrid.sep [0, 1/2, 1] [(1, 0)]).WF := ⟨rfl, trivial⟩
 example : ∃ c s : Rat, c ^ 2 + s ^ 2 = 1 ∧ c ≠ 0 ∧ s ≠ 0 := ⟨3 / 5, 4 / 5, by norm_num, by norm_num, by norm_num⟩
 example : (4 - 0) % 2 = 0 ∧ 0 ≤ 4 ∧ 4 ≤ 20 := by decide
 example : valid 20 (-20) = true ∧ (nollToZernike 231).1 = 20 := by decide +kernel
 example : ∃ (c s : Rat) (θ : ℝ), (c : ℝ) = Real.cos θ ∧ (s : ℝ) = Real.sin θ := ⟨1, 0, 0, by simp, by simp⟩
+example : ∃ (x y : Rat) (r θ : ℝ), (x : ℝ) = r * Real.cos θ ∧ (y : ℝ) = r * Real.sin θ ∧ 0 ≤ r :=
+  ⟨1 / 2, 0, 1 / 2, 0, by simp, by simp, by norm_num⟩
 
 end HcipyVerif.C13
